@@ -53,6 +53,9 @@ COMMON_TRUSTED = [
     "model-to-code tie: Go harness (corr), line protocol, Lean driver parsing glue, fact extractor (go/ast)",
 ]
 
+XLATE_TRUSTED = ("Go-subset -> Lean translator extract/cmd/xlate (NOTES-xlate.md): its reading of the whitelisted Go functions, "
+                 "regenerated into Generated/Xlate.lean on every run and proved equal to the model functions (theorems *_is_source)")
+
 PROPS = {}
 
 
@@ -73,6 +76,7 @@ register(Prop(
     ],
     trusted=COMMON_TRUSTED + [
         "regenerated facts: defaultQueueSize, Ack's accepted types, Acked's release set (sessions/*.go)",
+        XLATE_TRUSTED,
     ]))
 
 
